@@ -579,7 +579,7 @@ def explicit_models(mi, r):
     # F52 / F53 (open) and their well-behaved neighbours
     mk('F52:union-none-first', lambda mb: (mb.cls([('alpha', optr(leaf('int'))), ('beta_val', opt(leaf('int')))]),
                                            mb.m['instances'].append(['C', mb.m['classes'][0]['name'], [['alpha', ['I', '5']], ['beta_val', ['I', '5']]]])))
-    mk('F53:union-list-before-dict', lambda mb: (mb.cls([('alpha', union(leaf('int'), seq('list', leaf('int')), dct(leaf('str'), leaf('int'))))]),
+    mk('F53:union-list-before-dict', lambda mb: (mb.cls([('alpha', union(leaf('int'), seq('list', leaf('str')), dct(leaf('str'), leaf('int'))))]),
                                                  mb.m['instances'].append(['C', mb.m['classes'][0]['name'], [['alpha', ['D', None, [[['S', 'kk'], ['I', '1']]]]]]])))
     mk('shape:union-dict-before-list', lambda mb: mb.cls([('alpha', union(leaf('int'), dct(leaf('str'), leaf('int')), seq('list', leaf('int')))),
                                                           ('beta_val', seq('list', union(leaf('none'), dct(leaf('str'), leaf('str')), seq('list', leaf('str')))))]))
